@@ -234,6 +234,8 @@ func (r *RefMap) Check(run *hx.Run, before, after *Snap, op *Op, res string, rep
 		for i := range op.Txn {
 			if op.Txn[i].Fam != 'k' {
 				pure = false
+			} else if v := op.Txn[i].Verb; (v == "delete-tree" || v == "get-tree") && strings.HasSuffix(op.Txn[i].KV.Key, "\x00") {
+				pure = false // known finding kv:delete-tree-nul-terminated-prefix is reported on the single command only
 			}
 		}
 		if !pure {
@@ -273,6 +275,14 @@ func (r *RefMap) Check(run *hx.Run, before, after *Snap, op *Op, res string, rep
 					}
 				}
 			}
+		}
+	}
+	if op.Kind == "kv" && op.KV.Verb == "delete-tree" && strings.HasSuffix(op.KV.Key, "\x00") {
+		// exactly this shape: the prefix ends in NUL and the key equal to the prefix without that NUL was deleted too
+		k0 := op.KV.Key[:len(op.KV.Key)-1]
+		if r.m[k0] != nil && findKV(after, k0) == nil {
+			run.Violate("kv:delete-tree-nul-terminated-prefix", fmt.Sprintf("KVSDeleteTree(%q) also deleted key %q, which does not have that prefix", op.KV.Key, k0), replay)
+			delete(r.m, k0)
 		}
 	}
 	if d := r.diff(after); d != "" {
@@ -346,7 +356,13 @@ func CheckReads(run *hx.Run, w *World, snap *Snap, keys, prefixes []string, repl
 		if err != nil || strings.Join(got, "\x01") != strings.Join(want, "\x01") {
 			sig := "kv:list-differs-from-content"
 			if strings.HasSuffix(p, "\x00") {
-				sig = "kv:list-nul-terminated-prefix"
+				// exactly this shape: the only extra key is the prefix without its trailing NUL
+				k0 := p[:len(p)-1]
+				w2 := append(append([]string(nil), want...), k0)
+				sort.Strings(w2)
+				if strings.Join(got, "\x01") == strings.Join(w2, "\x01") {
+					sig = "kv:list-nul-terminated-prefix"
+				}
 			}
 			run.Violate(sig, fmt.Sprintf("KVSList(%q) returned keys %q (err %v); keys with that prefix are %q", p, got, err, want), replay)
 		}
